@@ -286,7 +286,9 @@ def run_instance(inst):
         gk = list(syn.synapse_params)[0]
         forms = [("select_edges", lambda m, r=rows_t: m.select(edges=[r[-1]]), [rows_t[-1]]),
                  ("type_edge_k", lambda m, s_=syn._name, r=rows_t: getattr(m, s_).edge(len(r) - 1), [rows_t[-1]]),
-                 ("type_all", lambda m, s_=syn._name: getattr(m, s_), rows_t)]
+                 ("type_all", lambda m, s_=syn._name: getattr(m, s_), rows_t),
+                 ("type_from_cell_view", lambda m, s_=syn._name: getattr(m.cell("all"), s_), rows_t),
+                 ("type_from_edge_view", lambda m, s_=syn._name, r=rows_t: getattr(m.select(edges=list(range(len(edges)))), s_), rows_t)]
         for fname, selv, want_rows in forms:
             netr = build_net(edges)
             smr = simenc.SymModule(netr, only=[k for k in simenc.SymModule(netr).keys() if k != gk])
